@@ -198,6 +198,37 @@ class Gen:
                                    "t": rng.choice(case["externs"])})
             else:
                 b["items"].append({"k": term_key(isa, term, rng)})
+        if popular is not None:
+            # the function most calls go to returns (its return edges are what
+            # those call sites share)
+            pf = next(f for f in funcs if f["name"] == popular)
+            members = [b for b in code_blocks if b["id"] in pf["blocks"] and
+                       b["id"] not in empties]
+            if members and not any(
+                    b["items"] and vocab.VOCAB[isa][b["items"][-1]["k"]][
+                        "kind"] == "ret" for b in members):
+                last = members[-1]
+                if last["items"] and vocab.VOCAB[isa][
+                        last["items"][-1]["k"]]["kind"] != "ord":
+                    last["items"].pop()
+                last["items"].append({"k": "ret"})
+        if self.knobs.get("call_pair_p") and popular is not None and \
+                rng.random() < self.knobs["call_pair_p"]:
+            # two consecutive blocks that both end in a call to the popular
+            # function, with code behind them: the second one is the return
+            # site of the first call
+            trip = [k for k in range(len(blocks) - 2)
+                    if all(x["code"] and x["items"] and
+                           x["id"] not in empties
+                           for x in blocks[k:k + 3])]
+            if trip:
+                k = rng.choice(trip)
+                for x in blocks[k:k + 2]:
+                    if vocab.VOCAB[isa][x["items"][-1]["k"]]["kind"] != \
+                            "ord":
+                        x["items"].pop()
+                    x["items"].append({"k": "call", "t": popular})
+                case["call_pair"] = blocks[k + 1]["id"]
         for b in all_blocks:
             if not b["code"]:
                 self.fill_data(b, any_labels)
@@ -470,6 +501,13 @@ class Gen:
                 rng.random() < self.knobs.get("themed_p", 0.2) and \
                 not getattr(self, "one_per_block", False):
             self.themed_edits(edits, per_block)
+        if case.get("call_pair") is not None and rng.random() < 0.6 and \
+                not per_block.get(case["call_pair"]):
+            b = next(x for x in blocks if x["id"] == case["call_pair"])
+            per_block.setdefault(b["id"], []).append(
+                (0, len(b["items"]), len(edits), "delall"))
+            edits.append({"op": "del", "b": b["id"], "i": 0,
+                          "n": len(b["items"]), "proxy": False})
         if rng.random() < 0.5 and not getattr(self, "one_per_block", False):
             self.around_empty_edits(edits, per_block)
         if self.knobs.get("entry_chain_p") and case["funcs"] and \
@@ -703,6 +741,12 @@ class Gen:
             plans.append((b, rng.choice(["after-call", "after-call",
                                          "del-call", "del-call",
                                          "before-call"])))
+        # a call block that is itself the return site of a call to F in the
+        # block in front of it: deleted as a whole
+        for b in sites:
+            k = self.all_blocks.index(b)
+            if k and self.all_blocks[k - 1] in sites and rng.random() < 0.5:
+                plans.append((b, "del-whole"))
         for b in rng.sample(others, min(len(others), rng.choice([1, 1, 2]))):
             plans.append((b, "patch-calls"))
         if members and rng.random() < 0.6:
@@ -717,7 +761,11 @@ class Gen:
             eid = len(edits)
             n = len(b["items"])
             mods = per_block.setdefault(b["id"], [])
-            if what == "del-call":
+            if what == "del-whole":
+                cand = (0, n, eid, "delall")
+                e = {"op": "del", "b": b["id"], "i": 0, "n": n,
+                     "proxy": False}
+            elif what == "del-call":
                 cand = (n - 1, 1, eid, "del")
                 e = {"op": "del", "b": b["id"], "i": n - 1, "n": 1,
                      "proxy": False}
